@@ -105,14 +105,6 @@ class Typer:
             return "u32"
         raise ValueError(k)
 
-    def is_value_path(self, e, env):
-        """an access path whose root is a value (let / parameter / constant), not a variable or a dereferenced pointer"""
-        while e["e"] in ("idx", "mem", "swz"):
-            e = e["a"]
-        if e["e"] == "var":
-            return env[e["n"]][1] == "val"
-        return e["e"] != "deref"
-
 
 def _eq(a, b):
     return json.dumps(a, sort_keys=True) == json.dumps(b, sort_keys=True)
